@@ -341,7 +341,7 @@ func RunC07(w *Workload, st *Stats, maxYields uint64) *RunReport {
 		}
 		dg = hstr(dg, rc.key)
 		// the value held by the caller must still be what was returned
-		if now := rc.out.Key(); now != rc.key {
+		if now := rc.out.KeyNow(); now != rc.key {
 			rep.Viol = &Violation{Prop: "C07", Class: "result-mutated", Sig: "result-mutated",
 				Detail: fmt.Sprintf("task %d call %d (%s %q): result changed after the call returned: was %s now %s", t, k, rc.op.K, rc.text, trunc(rc.key, 300), trunc(now, 300))}
 			return rep
@@ -569,7 +569,7 @@ func RunC06(w *Workload, st *Stats, maxYields uint64) *RunReport {
 			st.PanicCalls++
 		}
 		dg = hstr(dg, rc.key)
-		if now := rc.out.Key(); now != rc.key {
+		if now := rc.out.KeyNow(); now != rc.key {
 			// caller mutations may legitimately change a result that aliases the
 			// caller's document; only flag when no mutate op follows op k
 			later := false
